@@ -209,3 +209,90 @@ Proof.
     rewrite <- Ef in Hin. eapply IH; eauto. cbn [length] in *. lia.
 Qed.
 
+
+(* ---------------------------------------------------------------- what the denotation means at run time
+   A frame holds one value per cell.  A function value is created inside its parent's frame: every Capture{1, pi} cell of the
+   new frame is a copy of cell pi of the parent frame (runtime_scope.rs from_specs); values never change afterwards.  For a
+   chain of frames (innermost first) built that way over closed specs, the value found in any cell is the value of the
+   variable cell that [walk] says it denotes - at any depth of nesting. *)
+Section Frames.
+  Variable value : Type.
+  Definition frame := list (option value).
+
+  (* frames fs are consistent with the specs st: same shape, and each depth-1 capture holds the parent's cell *)
+  Fixpoint consistent (st : list scope) (fs : list frame) : Prop :=
+    match st, fs with
+    | [], [] => True
+    | sc :: below, f :: fbelow =>
+        consistent below fbelow /\
+        (forall i pi, nth_error sc i = Some (CCap 1 pi) ->
+           match fbelow with pf :: _ => nth_error f i = nth_error pf pi | [] => True end)
+    | _, _ => False
+    end.
+
+  (* the cell (h, j): cell j of the frame that has h frames below it *)
+  Definition cell_at (fs : list frame) (h j : nat) : option (option value) :=
+    match nth_error (rev fs) h with Some f => nth_error f j | None => None end.
+
+  Lemma cell_at_cons f fs h j : h < length fs -> cell_at (f :: fs) h j = cell_at fs h j.
+  Proof. intros H. unfold cell_at. cbn [rev]. rewrite nth_error_app1 by (rewrite rev_length; exact H). reflexivity. Qed.
+  Lemma cell_at_top f fs j : cell_at (f :: fs) (length fs) j = nth_error f j.
+  Proof.
+    unfold cell_at. cbn [rev]. rewrite nth_error_app2 by (rewrite rev_length; lia). rewrite rev_length, Nat.sub_diag. reflexivity.
+  Qed.
+
+  Lemma consistent_length st fs : consistent st fs -> length st = length fs.
+  Proof. revert fs. induction st as [|sc st IH]; intros [|f fs] H; cbn in *; try contradiction; auto. destruct H as [H _]. rewrite (IH fs H). reflexivity. Qed.
+
+  Lemma walk_height st k i h j : walk st k i = Some (h, j) -> h < length st.
+  Proof.
+    revert k i. induction st as [|sc below IH]; intros k i H; [discriminate|]. cbn [walk] in H. cbn [length].
+    destruct k as [|k]; [|specialize (IH _ _ H); lia].
+    destruct (nth_error sc i) as [[|[|d] ci]|]; try discriminate.
+    - inversion H; subst. lia.
+    - specialize (IH _ _ H). lia.
+  Qed.
+
+  (* closed specs use depth 1 only; then every capture cell holds the value of the variable cell it denotes *)
+  Theorem capture_holds_denoted_value : forall st fs,
+    consistent st fs ->
+    (forall sc c, In sc st -> In c sc -> c = CVar \/ exists ci, c = CCap 0 ci \/ c = CCap 1 ci) ->
+    forall i h j, walk st 0 i = Some (h, j) ->
+    match fs with f :: _ => cell_at fs h j = nth_error f i | [] => True end.
+  Proof.
+    induction st as [|sc below IH]; intros fs Hc Hd i h j Hw; [discriminate|].
+    destruct fs as [|f fbelow]; [cbn in Hc; contradiction|]. cbn [consistent] in Hc. destruct Hc as [Hcb Hcap].
+    pose proof (consistent_length _ _ Hcb) as Hlen.
+    cbn [walk] in Hw. destruct (nth_error sc i) as [c|] eqn:E; [|discriminate].
+    assert (Hin : In c sc) by (eapply nth_error_In; eauto).
+    destruct (Hd sc c (or_introl eq_refl) Hin) as [->|[ci [->| ->]]].
+    - inversion Hw; subst. rewrite Hlen. apply cell_at_top.
+    - discriminate.
+    - (* one hop to the parent *)
+      destruct below as [|psc pbelow]; [discriminate|]. destruct fbelow as [|pf pfb]; [cbn in Hcb; contradiction|].
+      specialize (Hcap i ci E). cbn in Hcap.
+      assert (Hd' : forall sc c, In sc (psc :: pbelow) -> In c sc -> c = CVar \/ exists ci, c = CCap 0 ci \/ c = CCap 1 ci).
+      { intros sc0 c0 H1 H2. apply (Hd sc0 c0); [right; exact H1|exact H2]. }
+      pose proof (IH (pf :: pfb) Hcb Hd' ci h j Hw) as Hp. cbn in Hp.
+      pose proof (walk_height _ _ _ _ _ Hw) as Hh. rewrite Hlen in Hh.
+      rewrite cell_at_cons by exact Hh. rewrite Hp, Hcap. reflexivity.
+  Qed.
+End Frames.
+
+(* the two halves together: compile-time re-threading followed by run-time copying gives every capture cell of the innermost
+   function the value of the variable the ORIGINAL (ancestor depth, cell index) pair named (the outermost scope has no scope
+   above it to capture from: its cells are variables) *)
+Theorem captured_value_is_the_named_variable : forall (value : Type) st (fs : list (frame value)),
+  (forall c, In c (last (close_all st) []) -> c = CVar) ->
+  consistent value (close_all st) fs ->
+  forall i h j, walk st 0 i = Some (h, j) ->
+  match fs with f :: _ => cell_at value fs h j = nth_error f i | [] => True end.
+Proof.
+  intros value st fs Hroot Hc i h j Hw.
+  apply (capture_holds_denoted_value value (close_all st) fs Hc); [|apply close_all_preserves; exact Hw].
+  intros sc c Hsc Hcin.
+  assert (Hne : close_all st <> []) by (intros Hn; rewrite Hn in Hsc; contradiction).
+  rewrite (app_removelast_last [] Hne) in Hsc. apply in_app_or in Hsc as [Hsc|[<-|[]]].
+  - apply (closed_depth_one (length st) st sc c (le_n _)); assumption.
+  - left. apply Hroot. exact Hcin.
+Qed.
